@@ -2,7 +2,7 @@
    Proofs/GraphP*.v. *)
 From Coq Require Import ZArith Bool List.
 Import ListNotations.
-From Verif Require Import Model.Val Model.Graph Proofs.GraphPBase Proofs.GraphPDfs.
+From Verif Require Import Model.Val Model.Graph Proofs.GraphPBase Proofs.GraphPDfs Proofs.GraphPTopo.
 Open Scope Z_scope.
 
 (* every graph the constructor can build is well-formed; the constructor never raises *)
@@ -23,3 +23,21 @@ Theorem C17_dfs_all : forall g, wf g ->
     forall x, In x l <-> exists s, In s (get_sources g) /\ reach g s x.
 Proof. exact dfs_all_spec. Qed.
 Print Assumptions C17_dfs_all.
+
+(* topological_sort: a result is a permutation of the nodes in which every edge goes forward *)
+Theorem C17_topo_sound : forall g, wf g -> forall l, topological_sort g = Ok l ->
+  Permutation.Permutation l (nodes g) /\ forall u v, edge g u v -> (index_of u l < index_of v l)%nat.
+Proof. exact topo_sound. Qed.
+Print Assumptions C17_topo_sound.
+(* a cycle is reported as the RuntimeError (never a list, never out of fuel) *)
+Theorem C17_topo_cycle_error : forall g, wf g -> cyclic g -> topological_sort g = Err E_RUNTIME.
+Proof. exact topo_cyclic_err. Qed.
+Print Assumptions C17_topo_cycle_error.
+(* the only exception is the cycle error and it is raised only on cyclic graphs *)
+Theorem C17_topo_error_means_cycle : forall g, wf g -> forall c, topological_sort g = Err c -> c = E_RUNTIME /\ cyclic g.
+Proof. exact topo_err_cyclic. Qed.
+Print Assumptions C17_topo_error_means_cycle.
+(* fuel adequacy / completeness *)
+Theorem C17_topo_complete : forall g, wf g -> acyclic g -> exists l, topological_sort g = Ok l.
+Proof. exact topo_acyclic_ok. Qed.
+Print Assumptions C17_topo_complete.
